@@ -584,10 +584,12 @@ class Classifier(object):
                 return "(LMrCatalog %s)" % cN(self.intern("multiref", g.order[par[0]])), "MultiRef.catalog (shared object)"
         if isinstance(o, list) and isinstance(pobj, MultiRef) and pf == ("attr", "nodes"):
             return "(LMrNodes %s)" % cN(self.intern("multiref", g.order[par[0]])), "MultiRef.nodes (shared object)"
-        if isinstance(o, suds.transport.http.HttpTransport) and field == ("attr", "proxy"):
+        if isinstance(o, suds.transport.http.HttpTransport) and field in (("attr", "proxy"), ("attr", "pm")):
+            # the attributes the transport re-assigns at every request (send: proxy;
+            # addcredentials: pm) are one model cell per transport
             owner = [n for n, c in enumerate(g.clients) if c.options.transport is o]
             return "(LProxy %s)" % cN(owner[0] if owner else 98), \
-                "HttpTransport.proxy of the transport of client %s" % (owner[0] if owner else "?")
+                "HttpTransport.%s of the transport of client %s" % (field[1], owner[0] if owner else "?")
         if isinstance(o, MultiRef) and field[0] == "attr" and field[1] in ("nodes", "catalog"):
             ctor = "LMrNodes" if field[1] == "nodes" else "LMrCatalog"
             return "(%s %s)" % (ctor, cN(self.intern("multiref", g.order[oid]))), "MultiRef.%s (shared object)" % field[1]
@@ -775,9 +777,15 @@ class Footprint(object):
             stored = pobj.resolved_cache.get(key)
             idem = again[0] == "ok" and stored is not None and id(stored) == new[1] and \
                 same_schema_object(again[1], stored)
-        elif loc.startswith("(LProxy") and new is not None:
+        elif loc.startswith("(LProxy") and new is not None and field == ("attr", "proxy"):
             # re-assigned by every call with the proxy setting of the transport's own options
             idem = o.proxy is o.options.proxy and self.vid_of(o.proxy) == new
+        elif loc.startswith("(LProxy") and new is not None and field == ("attr", "pm"):
+            # a new password manager per request (since 2ac69bb): the same value for every call only
+            # when it is empty, i.e. no credentials are configured; with credentials its single entry
+            # is for the URL of the request that assigned it
+            creds = run_impl(o.credentials)
+            idem = creds[0] == "ok" and None in creds[1] and getattr(o.pm, "passwd", None) == {}
         elif loc.startswith("(LFactory") and new is not None and new[0] == "o":
             cls = None
             for k, v in o.items():
@@ -1532,19 +1540,26 @@ def run(ck):
         if i not in set(res_lk["lk_spec_ok"]):
             problems.append(("Endpoint.__getattr__ model", lk_meta[i]))
 
+    # ---------------- instrument 5: credentials on the shared transport ----------------
+    for o in credentials_scenario(ck, world, rng)[:1]:
+        report_or_note(ck, "C13:transport-credentials-race",
+                       "with username/password configured, a %s call suspended at %s while a %s call (other URL, "
+                       "same client) runs gets %s although it succeeds alone: transport.pm is replaced by every "
+                       "request" % (o["kinds"][0], o["where"], o["kinds"][1], o["got"][1]), o)
+
     # ---------------- instrument 2: schedules ----------------
-    sc_cases, sc_meta, sc_groups = schedule_cases(ck, world, runner, rng, quick, memo_cells, suspicious_fp, fp_meta)
-    res_sc = ck.run_cases("sched", PRE, "sched_case", sc_cases, ["sc_agrees", "sc_spec_ok"], shard=100)
+    rec = schedule_cases(ck, world, runner, rng, quick, memo_cells, suspicious_fp, fp_meta)
+    res_sc = ck.run_cases("sched", PRE, "sched_case", rec.cases, ["sc_agrees", "sc_spec_ok"], shard=100)
     bad_sc = set(res_sc["sc_spec_ok"])
     for i in sorted(bad_sc):
-        for j in sc_groups[i]:
-            m = sc_meta[j]
-            ck.failing_input(m["class"], m["what"], m["payload"])
+        for c_no, m in rec.fail_meta:
+            if c_no == i:
+                ck.failing_input(m["class"], m["what"], m["payload"])
     for i in res_sc["sc_agrees"]:
         if i not in bad_sc:
             problems.append(("schedule model (the labelled interleaving of the model program gives another "
-                             "outcome than the real threads)", sc_meta[sc_groups[i][0]]["payload"]))
-    ck.extra["distinct_model_schedules"] = len(sc_cases)
+                             "outcome than the real threads)", rec.rep_meta[i]["payload"]))
+    ck.extra["distinct_model_schedules"] = len(rec.cases)
 
     # footprint failures.  A call that writes another client's message slot (or
     # reads the slot) contradicts "own message history" directly.  Any other
@@ -1598,7 +1613,7 @@ def fp_offenders(m):
             continue
         if ("resolved_cache" in what or "Factory.cache" in what) and empty and idem:
             continue
-        if what.startswith("HttpTransport.proxy") and what.endswith(own[3:]) and idem:
+        if what.startswith("HttpTransport.") and what.endswith(own[3:]) and idem:
             continue
         bad.append(what)
     if m.get("msg_reads"):
@@ -1747,6 +1762,78 @@ def lookup_cases(ck, world):
     return cases, meta
 
 
+def credentials_scenario(ck, world, rng):
+    """Outside the anchored code but on the path of every call: HTTP basic
+    authentication.  A client with username/password; the server answers 401
+    unless the password manager the transport hands to urllib's
+    HTTPBasicAuthHandler (u2handlers reads transport.pm) has an entry for the
+    request URL.  Thread A is suspended at every event inside the transport
+    while thread B (another URL, same client) runs its whole call."""
+    import io
+    import urllib.error
+    import urllib.request
+    observations = []
+
+    class AuthOpener(object):
+        def __init__(self, transport):
+            self.t = transport
+
+        def open(self, u2request, timeout=None):
+            hs = [x for x in self.t.u2handlers() if isinstance(x, urllib.request.HTTPBasicAuthHandler)]
+            user = hs[0].passwd.find_user_password(None, u2request.full_url)[0] if hs else None
+            if user is None:
+                raise urllib.error.HTTPError(u2request.full_url, 401, "Unauthorized", {}, io.BytesIO(b""))
+            return world.EchoTransport().urlopener.open(u2request, timeout)
+
+    for (ka, kb) in (("doc-echo", "enc-item"), ("enc-echo", "doc-find")):
+        c = world.new_client("plain")
+        c.set_options(username="u", password="p")
+        c.options.transport.urlopener = AuthOpener(c.options.transport)
+        sa, sb = gen_spec(rng, ka, "CA"), gen_spec(rng, kb, "CB")
+        solo = [run_impl(world.invoke(c, ka, sa)), run_impl(world.invoke(c, kb, sb))]
+        ck.count("credentials scenario (solo)", 2)
+        if solo[0][0] != "ok" or solo[1][0] != "ok":
+            continue                # authentication itself is C15's business
+        want = [world.canon(solo[0][1]), world.canon(solo[1][1])]
+        probe = Scheduler(world, [world.invoke(c, ka, sa)], [])
+        names = []
+        orig_tick = probe.tick
+
+        def tick(t, frame, event, orig_tick=orig_tick, names=names):
+            orig_tick(t, frame, event)
+            names.append("%s:%s" % (os.path.basename(frame.f_code.co_filename), frame.f_code.co_name))
+        probe.tick = tick
+        probe.run()
+        points = [i for i, nm in enumerate(names, 1) if nm.split(":")[0] in ("http.py", "https.py")]
+        for k in points:
+            s = Scheduler(world, [world.invoke(c, ka, sa), world.invoke(c, kb, sb)], [(0, k), (1, None)])
+            res = s.run()
+            ck.seen(("credentials", ka, kb, k))
+            ck.count("credentials scenario (A suspended inside the transport)")
+            for t, r in enumerate(res):
+                if not (r[0] == "ok" and world.canon(r[1]) == want[t]):
+                    observations.append({
+                        "mode": "credentials", "kinds": [ka, kb], "specs": [sa, sb], "event": k,
+                        "where": s.switches[0][2] if s.switches else "?", "thread": t,
+                        "got": (r[0], str(r[1])[:160])})
+            if len(observations) >= 3:
+                return observations
+    return observations
+
+
+def report_or_note(ck, key, what, payload):
+    """A finding in code outside the property's anchors: a VIOLATION /
+    KNOWN-FINDING only when the key is registered in the known-findings file
+    (status known or fixed); otherwise written to the evidence file."""
+    registered = [f for f in common.load_known().get("findings", [])
+                  if f.get("property") == "C13" and f.get("key") == key]
+    if registered:
+        ck.failing_input(key, what, payload)
+    else:
+        ck.extra.setdefault("unregistered_observations", []).append({"key": key, "what": what, "payload": payload})
+        print("NOTE property=C13 unregistered observation [%s]: %s" % (key, what))
+
+
 # ---------------------------------------------------------------------------
 # schedules
 # ---------------------------------------------------------------------------
@@ -1791,58 +1878,157 @@ def pick_points(rng, names, budget, exhaustive, part=0, parts=1):
     return sorted(pts)
 
 
-def schedule_cases(ck, world, runner, rng, quick, memo_cells, suspicious_fp, fp_meta):
-    cases, meta = [], []
-    case_index, groups = {}, []      # identical Coq terms are evaluated once
-    classes = {}
-    key_intern_tab = Interner()
+class Recorder(object):
+    """Collects executed schedules: identical Coq terms once (the exhaustive
+    tier maps thousands of preemption points to a few hundred model labels),
+    one representative payload per term, every failing schedule."""
 
-    def key_intern(s):
-        return key_intern_tab("href", s)
+    def __init__(self, world):
+        self.world = world
+        self.cases, self.case_index = [], {}
+        self.rep_meta = []          # per case: payload of the first schedule mapped to it
+        self.fail_meta = []         # (case number, meta) of schedules whose outcome is not all-own
+        self.seen = []              # (key, suspended)
+        self.counts = {}
+        self.classes = {}
+        self.samples = []
+        self.key_intern_tab = Interner()
+        self.setup_keys = {}
 
-    def record(setup, plan, cold, lines, outs, s, solos, totals, label):
-        calls = clist([call_term(world, setup, t, solos, s, key_intern)
+    def key_intern(self, text):
+        return self.key_intern_tab("href", text)
+
+    def failing(self):
+        return len(self.fail_meta)
+
+    def add(self, setup, plan, cold, lines, outs, s, solos, label):
+        world = self.world
+        calls = clist([call_term(world, setup, t, solos, s, self.key_intern)
                        for t in range(len(setup.threads))], "call")
         obs = nnlist([int(o["req_own"]), o["res"]] for o in outs)
         term = "(SC %s %s %s)" % (calls, plan_term(s), obs)
-        if term in case_index:
-            case_no = case_index[term]
-        else:
-            case_no = case_index[term] = len(cases)
-            cases.append(term)
-            groups.append([])
-        groups[case_no].append(len(meta))
         bad = [(t, o) for t, o in enumerate(outs) if not (o["req_own"] and o["res"] == 0)]
-        what, cls = "", "C13:interference"
-        if bad:
-            t, o = bad[0]
-            c, kind, spec = setup.threads[t]
-            where = s.switches[0][2] if s.switches else "?"
-            if o["res"] == 1:
-                what = ("thread %d (%s) preempted at %s while the other call ran: it %s" % (t, kind, where, o["detail"]))
-            elif o["res"] == 3:
-                what = "thread %d (%s) preempted at %s fails: %s" % (t, kind, where, o["detail"])
-            elif o["res"] == 4:
-                what = "thread %d (%s) preempted at %s never returns" % (t, kind, where)
-            elif not o["req_own"]:
-                what = "thread %d (%s) preempted at %s did not send the request built from its own arguments" % (t, kind, where)
-            else:
-                what = "thread %d (%s) preempted at %s: %s" % (t, kind, where, o["detail"])
-            stack = s.switches[0][3] if s.switches else []
-            if "multiref.py" in where or any(fr.startswith("multiref.py:") for fr in stack):
-                cls = "C13:shared-multiref-state"
-            elif o["res"] in (3, 4):
-                cls = "C13:call-fails-under-concurrency"
-        meta.append({"class": cls, "what": what,
-                     "payload": {"mode": "schedule", "setup": setup.payload(), "plan": plan, "cold": cold,
-                                 "lines": lines, "label": label,
-                                 "switches": s.switches[:6], "outcomes": outs}})
-        suspended = any(sw for sw in s.switches)
-        ck.seen(("sched", json.dumps(setup.payload(), sort_keys=True), tuple(plan), cold, lines),
-                nontrivial=suspended)
-        ck.count(label)
+        new_case = term not in self.case_index
+        if new_case:
+            self.case_index[term] = len(self.cases)
+            self.cases.append(term)
+        case_no = self.case_index[term]
+        if new_case or bad:
+            what, cls = "", "C13:interference"
+            if bad:
+                t, o = bad[0]
+                c, kind, spec = setup.threads[t]
+                where = s.switches[0][2] if s.switches else "?"
+                if o["res"] == 1:
+                    what = "thread %d (%s) preempted at %s while the other call ran: it %s" % (t, kind, where, o["detail"])
+                elif o["res"] == 3:
+                    what = "thread %d (%s) preempted at %s fails: %s" % (t, kind, where, o["detail"])
+                elif o["res"] == 4:
+                    what = "thread %d (%s) preempted at %s never returns" % (t, kind, where)
+                elif not o["req_own"]:
+                    what = ("thread %d (%s) preempted at %s did not send the request built from its own "
+                            "arguments" % (t, kind, where))
+                else:
+                    what = "thread %d (%s) preempted at %s: %s" % (t, kind, where, o["detail"])
+                stack = s.switches[0][3] if s.switches else []
+                if "multiref.py" in where or any(fr.startswith("multiref.py:") for fr in stack):
+                    cls = "C13:shared-multiref-state"
+                elif o["res"] in (3, 4):
+                    cls = "C13:call-fails-under-concurrency"
+            m = {"class": cls, "what": what,
+                 "payload": {"mode": "schedule", "setup": setup.payload(), "plan": plan, "cold": cold,
+                             "lines": lines, "label": label, "model_plan": list(s.timeline),
+                             "switches": s.switches[:6], "outcomes": outs}}
+            if new_case:
+                self.rep_meta.append(m)
+            if bad:
+                self.fail_meta.append((case_no, m))
+        sk = self.setup_keys.get(id(setup))
+        if sk is None:
+            sk = self.setup_keys[id(setup)] = (setup, json.dumps(setup.payload(), sort_keys=True))
+        self.seen.append((("sched", sk[1], tuple(plan), cold, lines), bool(s.switches)))
+        self.counts[label] = self.counts.get(label, 0) + 1
         for sw in s.switches[:1]:
-            classes[sw[2].split(":")[0]] = classes.get(sw[2].split(":")[0], 0) + 1
+            f = sw[2].split(":")[0]
+            self.classes[f] = self.classes.get(f, 0) + 1
+        if not bad and len(self.samples) < 2 and s.switches:
+            self.samples.append({"schedule": plan, "preempted at": s.switches[:1],
+                                 "model labels (thread, (instructions done, sub))": list(s.timeline),
+                                 "threads": [(c, k) for c, k, _ in setup.threads],
+                                 "outcomes": [(o["req_own"], o["res"]) for o in outs]})
+
+    def dump(self):
+        return {"cases": self.cases, "rep_meta": self.rep_meta, "fail_meta": self.fail_meta,
+                "seen": self.seen, "counts": self.counts, "classes": self.classes, "samples": self.samples}
+
+    def merge(self, d):
+        remap = {}
+        for i, term in enumerate(d["cases"]):
+            if term not in self.case_index:
+                self.case_index[term] = len(self.cases)
+                self.cases.append(term)
+                self.rep_meta.append(d["rep_meta"][i])
+            remap[i] = self.case_index[term]
+        self.fail_meta.extend((remap[c], m) for c, m in d["fail_meta"])
+        self.seen.extend(d["seen"])
+        for k, v in d["counts"].items():
+            self.counts[k] = self.counts.get(k, 0) + v
+        for k, v in d["classes"].items():
+            self.classes[k] = self.classes.get(k, 0) + v
+        self.samples.extend(d["samples"][: max(0, 2 - len(self.samples))])
+
+
+_EXH = {}
+
+
+def exhaustive_pair(job):
+    """Worker (forked process): every single-preemption interleaving of one
+    ordered pair of call kinds at function call/return granularity."""
+    import random
+    pn, ka, kb, relation, seed = job
+    try:
+        world, runner = _EXH["world"], _EXH["runner"]
+        rng = random.Random("C13/exhaustive/%d/%d" % (seed, pn))
+        rec = Recorder(world)
+        variants = ["plain"] if relation == "same" else ["plain", rng.choice(VARIANT_LIST[:3])]
+        ca, cb = (0, 0) if relation == "same" else (0, 1)
+        if rng.random() < 0.5:
+            ca, cb = cb, ca
+        setup = Setup(relation, variants, [(ca, ka, gen_spec(rng, ka, "A%d" % pn)),
+                                           (cb, kb, gen_spec(rng, kb, "B%d" % pn))])
+        total_a, names = runner.count_events(setup, 0)
+        clients = None
+        for k in range(1, total_a + 1):
+            cold = (k % 3 == 0)
+            plan = [(0, k), (1, None)]
+            outs, s, solos, clients = runner.run_schedule(setup, plan, cold, clients=clients)
+            rec.add(setup, plan, cold, False, outs, s, solos, "single-preemption exhaustive")
+            if any(not (o["req_own"] and o["res"] == 0) for o in outs):
+                clients = None
+                if rec.failing() >= 3:
+                    break
+        d = rec.dump()
+        d["pair"] = (pn, ka, kb, relation, total_a)
+        return d
+    except CloneFailed as e:
+        return {"clone_failed": str(e), "pair": (pn, ka, kb, relation, 0)}
+    except Exception:
+        import traceback
+        return {"error": traceback.format_exc(), "pair": (pn, ka, kb, relation, 0)}
+
+
+def schedule_cases(ck, world, runner, rng, quick, memo_cells, suspicious_fp, fp_meta):
+    rec = Recorder(world)
+
+    def record(setup, plan, cold, lines, outs, s, solos, totals, label):
+        rec.add(setup, plan, cold, lines, outs, s, solos, label)
+
+    class _Meta(object):
+        """`meta` as the loops below use it: the failing schedules so far."""
+
+        def __iter__(self):
+            return iter([m for _, m in rec.fail_meta])
+    meta = _Meta()
 
     # --- (w) the refutation witness of multiref_shared_refuted on real threads:
     # thread A suspended at each step of MultiRef.process / Binding.get_reply while
@@ -1889,10 +2075,30 @@ def schedule_cases(ck, world, runner, rng, quick, memo_cells, suspicious_fp, fp_
             pairs.append((a, rng.choice([k for k in KIND_LIST if k != a])))
         per_pair = 50
     else:
-        sel = [("enc-echo", "enc-item"), ("enc-item", "enc-echo"), ("doc-echo", "enc-echo"),
-               ("enc-echo", "doc-find"), ("lit-item", "enc-item"), ("doc-find", "doc-echo2"),
-               ("lit-echo", "doc-echo"), ("enc-item", "lit-echo")]
-        pairs = sel + [p for p in pairs if p not in sel][:12]
+        # thorough: EVERY ordered pair of call kinds (49), every call/return event of the
+        # preempted call, in forked worker processes
+        import multiprocessing
+        all_pairs = [(a, b) for a in KIND_LIST for b in KIND_LIST]
+        jobs = [(pn, a, b, relations[pn % 4], ck.seed) for pn, (a, b) in enumerate(all_pairs)]
+        _EXH["world"], _EXH["runner"] = world, runner
+        nproc = max(1, min(int(os.environ.get("VERIF_C13_PROCS", "8")), common.NCPU, len(jobs)))
+        ctx = multiprocessing.get_context("fork")
+        with ctx.Pool(nproc) as pool:
+            dumps = list(pool.imap_unordered(exhaustive_pair, jobs, chunksize=1))
+        dumps.sort(key=lambda d: d["pair"][0])
+        exh_events = {}
+        for d in dumps:
+            if "error" in d:
+                raise RuntimeError("exhaustive worker failed for pair %r:\n%s" % (d["pair"], d["error"]))
+            if "clone_failed" in d:
+                ck.failing_input("C13:clone-fails", "Client.clone() raises %s" % d["clone_failed"],
+                                 {"probe": "clone", "history": [], "how": "exhaustive scenario %r" % (d["pair"],)})
+                continue
+            rec.merge(d)
+            exh_events["%s|%s (%s)" % d["pair"][1:4]] = d["pair"][4]
+        ck.extra["exhaustive_pairs"] = len(exh_events)
+        ck.extra["exhaustive_events_per_pair"] = exh_events
+        pairs = []
         per_pair = None
     # kinds whose measured footprint looked wrong are searched first and harder
     hot = []
@@ -1926,7 +2132,7 @@ def schedule_cases(ck, world, runner, rng, quick, memo_cells, suspicious_fp, fp_
             if ekb not in event_cache:
                 event_cache[ekb] = runner.count_events(Setup(relation, variants, [setup.threads[1]]), 0)
             totals = [total_a, event_cache[ekb][0]]
-            exhaustive = (not quick) and pn < 8
+            exhaustive = False
             part = sum(1 for q in pairs[:pn] if q[0] == ka) % 3
             pts = pick_points(rng, names, 200 if (ka in hot and quick) else (per_pair or 60), exhaustive,
                               part=part, parts=3)
@@ -1981,14 +2187,14 @@ def schedule_cases(ck, world, runner, rng, quick, memo_cells, suspicious_fp, fp_
             ck.failing_input("C13:clone-fails", "Client.clone() raises %s" % e,
                              {"probe": "clone", "history": [], "how": "schedule scenario"})
             continue
-    ck._sc_classes = classes
-    if meta:
-        good = [m for m in meta if not m["what"]]
-        for m in good[:2]:
-            ck.sample({"schedule": m["payload"]["plan"], "preempted at": m["payload"]["switches"][:2],
-                       "threads": [(c, k) for c, k, _ in m["payload"]["setup"]["threads"]],
-                       "outcomes": [(o["req_own"], o["res"]) for o in m["payload"]["outcomes"]]})
-    return cases, meta, groups
+    ck._sc_classes = rec.classes
+    for key, suspended in rec.seen:
+        ck.seen(key, nontrivial=suspended)
+    for label, n in sorted(rec.counts.items()):
+        ck.count(label, n)
+    for smp in rec.samples[:2]:
+        ck.sample(smp)
+    return rec
 
 
 # ---------------------------------------------------------------------------
@@ -2013,6 +2219,13 @@ def replay(ck, payload):
                 t, o["req_own"], {0: "own reply", 1: "ANOTHER THREAD'S REPLY", 2: "differs from solo run",
                                   3: "exception", 4: "blocked"}[o["res"]], o["detail"]))
         return 0 if all(o["req_own"] and o["res"] == 0 for o in outs) else 1
+    if mode == "credentials":
+        import random
+        obs = credentials_scenario(ck, world, random.Random(0))
+        for o in obs[:3]:
+            print("thread %d suspended/ran with A preempted at %s: %s" % (o["thread"], o["where"], o["got"]))
+        print("calls failing under the schedule although they succeed alone:", len(obs))
+        return 1 if obs else 0
     if mode == "footprint":
         m = payload.get("case", payload)
         runner = Runner(ck, world)
